@@ -71,13 +71,22 @@ def true_distance_search(rec, limit):
     return None
 
 
+def _ilp_task(t):
+    n, H, L, d, tl = t
+    import ilp_distance
+    try:
+        return ilp_distance.low_weight_logical(n, [(r['x'], r['z']) for r in H], [(r['x'], r['z']) for r in L], d, tl)
+    except Exception:
+        return None
+
+
 def run(rep, work, tier, seed, only=None):
     rep.rule = ('one case = one (class, size[, deformation, axis]) instance with its reported d; undeformed instances get the '
                 'kernel-evaluated exhaustive search below d (all 4^n operators, via the proved CSS reduction where rows are '
                 'pure-type) when the estimated cost is within the tier cap; deformed instances are tied to the undeformed one by '
                 'the image check + theorem. non-trivial = d >= 2')
     rep.trusted += ['drivers/dump_codes.py, harness/codegen.py (Python); cost estimator only selects instances']
-    outdir, idx = cc.run_dump(work, tier, only)
+    outdir, idx = cc.run_dump(work, tier, only, extra='c17')
     recs = {it['tag']: cc.load(outdir, it['tag']) for it in idx}
     und, dfm, skipped = [], [], []
     for tag, rec in recs.items():
@@ -141,6 +150,33 @@ def run(rep, work, tier, seed, only=None):
                 else:
                     rep.violation(dict(key, site='d', clause='obligation'), '%s: obligation %s not true (%s)' % (tag, name, v),
                                   {'instance': key, 'broken': name}, no_input=True)
+    # instances out of reach of the exhaustive search: an untrusted integer-programming search looks for a logical operator
+    # lighter than the reported d; a candidate is believed only after the kernel has checked it (lighter_logical)
+    from multiprocessing import Pool
+    ilp_recs = [recs[t] for t in skipped if recs[t]['n'] <= (200 if tier == 'quick' else 420) and recs[t]['d'] >= 2]
+    with Pool(14) as pool:
+        cands = pool.map(_ilp_task, [(r['n'], r['H'], r['lx'] + r['lz'], r['d'], 20.0 if tier == 'quick' else 120.0) for r in ilp_recs])
+    rep.extra['instances_searched_by_integer_programming_for_a_lighter_logical'] = len(ilp_recs)
+    found = [(r, c_) for r, c_ in zip(ilp_recs, cands) if c_ is not None]
+    for r in ilp_recs:
+        rep.case(dict(cc.inst_key(r), search='ilp'), True)
+        rep.count(r['cls'] + ':ilp')
+
+    def body_l(rec, uid):
+        w, xs, zs = rec['_cand']
+        return codegen.code_def('c_' + uid, rec), [('lighter_' + uid, 'lighter_logical c_%s %d%%nat (%s)' % (uid, rec['d'], codegen.bsf_lit({'x': xs, 'z': zs})))]
+    for r, c_ in found:
+        r['_cand'] = c_
+    if found:
+        resl = cc.run_obligation_files(work, 'c17l', cc.batch([r for r, _ in found], lambda r: 0.1, 2.0), body_l, hdr=hdr)
+        for r, c_ in found:
+            ok = all(v is True for v in resl.get(r['tag'], {'x': False}).values())
+            key = cc.inst_key(r)
+            if ok:
+                rep.violation(dict(key, site='d', clause='lower'),
+                              '%s reports d=%d but the operator X%s Z%s of weight %d commutes with all stabilizers and acts non-trivially on '
+                              'the logical qubits (found by integer programming, checked in the kernel)' % (r['tag'], r['d'], c_[1], c_[2], c_[0]),
+                              {'instance': key, 'reported_d': r['d'], 'lighter_logical': {'x': c_[1], 'z': c_[2]}})
     # deformed instances: same d as the undeformed instance, table is the image (so the theorem applies)
     todo = []
     for rec in dfm:
